@@ -70,11 +70,12 @@ let run_file file tablefile =
             let cnt = i (Nucleo.count_of !s sid) in
             let seen = List.filter (fun k -> Nucleo.published !s sid (n k)) (List.init cnt (fun k -> k)) in
             ev (Nucleo.ERun (List.map n seen, n cnt));
+            let lk = (match !s.Nucleo.lock with Nucleo.Free -> "" | _ -> "!locked") in
             push (if was_done then "Yidle" else
                     match !s.Nucleo.post with
-                    | Nucleo.PUnlocked _ -> "Yunlocked"
-                    | Nucleo.PNotify -> "Ybefore_notify"
-                    | Nucleo.PDone -> "Ydone"
+                    | Nucleo.PUnlocked _ -> "Yunlocked" ^ lk
+                    | Nucleo.PNotify -> "Ybefore_notify" ^ lk
+                    | Nucleo.PDone -> "Ydone" ^ lk
                     | Nucleo.PNone ->
                       (match !s.Nucleo.lock with
                        | Nucleo.HeldRun (Nucleo.RStart, _, _) -> "Ystart"
@@ -105,7 +106,7 @@ let gen seed count =
   Random.init seed;
   let sc _ _ _ = None and ln _ _ = N0 in
   for hk = 0 to count - 1 do
-    let style = hk mod 5 in
+    let style = hk mod 6 in
     let s = ref Nucleo.init_nstate in
     let ev e = s := Nucleo.do_event sc ln !s e in
     let out = ref [] in
@@ -146,9 +147,18 @@ let gen seed count =
       if idle () then begin
         let p = Random.int npatterns in
         let app = extends_ !cur_pat p && Random.int 4 > 0 in
-        ev (Nucleo.EEdit (n p, app, false)); emit (Printf.sprintf "edit %d %d" p (Bool.to_int app)); cur_pat := p; true end else false in
+        ev (Nucleo.EEdit (n p, app, false)); emit (Printf.sprintf "edit %d %d" p (Bool.to_int app)); cur_pat := p;
+        (* typing burst: a (usually non-append) edit directly followed by an append edit, no tick in between *)
+        if Random.int 2 = 0 then begin
+          let exts = List.filter (fun q -> q <> p && extends_ p q) (List.init npatterns (fun q -> q)) in
+          if exts <> [] then begin
+            let q = List.nth exts (Random.int (List.length exts)) in
+            ev (Nucleo.EEdit (n q, true, false)); emit (Printf.sprintf "edit %d 1" q); cur_pat := q
+          end
+        end;
+        true end else false in
     let do_restart () = if idle () then begin let c = Random.bool () in ev (Nucleo.ERestart c); emit (Printf.sprintf "restart %d" (Bool.to_int c)); true end else false in
-    let do_tick () = if idle () then begin let z = (style = 3 && Random.int 4 > 0) || Random.int 3 = 0 in ev (Nucleo.ETickBegin z); emit (Printf.sprintf "tick %d" (if z then 0 else 1)); true end else false in
+    let do_tick () = if idle () then begin let z = ((style = 3 || style = 5) && Random.int 4 > 0) || Random.int 3 = 0 in ev (Nucleo.ETickBegin z); emit (Printf.sprintf "tick %d" (if z then 0 else 1)); true end else false in
     ignore (do_inj ());
     if style <> 4 then (ignore (do_push ()); ignore (do_push ()));
     let steps = 25 + Random.int 50 in
@@ -167,7 +177,12 @@ let gen seed count =
         else if r < 95 then (match !s.Nucleo.injectors with [] -> false | l -> let (h, _) = List.nth l (Random.int (List.length l)) in
                               if List.exists (fun (_, _, st, _) -> !st < 2) !threads then false else begin ev (Nucleo.EDropInjector h); emit (Printf.sprintf "dropinj %d" (i h)); true end)
         else do_obs () in
-      ignore ok
+      ignore ok;
+      (* style 5: cancel-heavy - as soon as a tick has answered `running`, edit the pattern and tick again
+         while the run is still parked somewhere *)
+      if style = 5 && idle () && (match !s.Nucleo.last_tick with Some (_, true) -> true | _ -> false) && held_run () && Random.int 2 = 0 then begin
+        ignore (do_edit ()); ignore (do_tick ()); ignore (do_ut ())
+      end
     done;
     (* wind down to quiescence: finish the tick, the run, the writers; then tick until not running *)
     let fuel = ref 400 in
